@@ -15,12 +15,20 @@ import (
 func H_C15_InvoiceHelpers() {
 	vrt.Unwind(5000) // the real tag and scenario lists have dozens of entries
 	regimes := []l10n.TaxCountryCode{"ES", "IT", "MX", "PT"}
-	addons := [][]cbc.Key{{"es-facturae-v3"}, {"it-sdi-v1"}, {"mx-cfdi-v4"}, {"de-xrechnung-v3"}, {"eu-en16931-v2017", "es-tbai-v1"}}
+	addons := [][]cbc.Key{{"es-facturae-v3"}, {"it-sdi-v1"}, {"mx-cfdi-v4"}, {"de-xrechnung-v3"}, {"eu-en16931-v2017", "es-tbai-v1"}, {"pt-saft-v1"}}
 	r := regimes[vrt.Choice("regime", len(regimes))]
 	as := addons[vrt.Choice("addons", len(addons))]
 	inv := &Invoice{Type: InvoiceTypeStandard}
 	inv.Regime = tax.WithRegime(r)
 	inv.Addons = tax.WithAddons(as...)
+	// documents that make scenarios (and their notes) match: by tag, and by an extension value on a line
+	switch vrt.Choice("doc", 3) {
+	case 1:
+		inv.Tags = tax.WithTags(tax.TagReverseCharge)
+	case 2:
+		inv.Tags = tax.WithTags(tax.TagSimplified)
+		inv.Lines = []*Line{{Taxes: tax.Set{{Category: "VAT", Ext: tax.Extensions{"pt-saft-exemption": "M01"}}}}}
+	}
 	vrt.Freeze(inv.RegimeDef(), "regime definition")
 	for _, a := range inv.AddonDefs() {
 		vrt.Freeze(a, "addon definition")
